@@ -122,8 +122,8 @@ Section IOText.
     | _ => None
     end.
 
-  (* generic body of read_vtk for cells with w vertices (w = 3 triangles, w = 4 tetrahedra) *)
-  Definition read_vtk_cells (zK : Z -> K) (w : nat) (s : file) : option (list (K * K * K) * list (list nat)) :=
+  (* read_vtk up to and including the line that announces the cells: comments, ASCII, DATASET, POINTS section, next line *)
+  Definition read_vtk_pre (zK : Z -> K) (s : file) : option (list (K * K * K) * list tok * file) :=
     match skip_comments (S (List.length s)) s with
     | None => None
     | Some (l, r) =>
@@ -138,39 +138,83 @@ Section IOText.
             | None => None
             | Some (v, r3) =>
               match readline r3 with
-              | Some ([TW kw; TZ tn; TZ ttn], r4) =>
-                if negb (String.eqb kw "POLYGONS" || String.eqb kw "CELLS") then None
-                else if negb (Z.eqb ttn (Z.of_nat (S w) * tn)) then None             (* npt != w+1 *)
-                else
-                  let '(nums, _) := take_nums r4 (Z.to_nat ttn) in
-                  if negb (Nat.eqb (List.length nums) (Z.to_nat ttn)) then None           (* t.shape = (tnum, w+1) raises *)
-                  else match all_some (map tokZ nums) with
-                       | None => None
-                       | Some zs =>
-                         match chunkn (S w) (List.length zs) zs with
-                         | None => None
-                         | Some rows =>
-                           match rows with [] => None | _ =>
-                           if negb (Z.eqb (hd 0%Z (last rows [])) (Z.of_nat w)) then None      (* t[tnum-1][0] != w *)
-                           else Some (v, map (fun row => map Z.to_nat (tl row)) rows)
-                           end
-                         end
-                       end
-              | _ => None
+              | Some (line, r4) => Some (v, line, r4)
+              | None => None
               end
             end
         | _ => None
         end
       end
     end.
+  (* POLYGONS / CELLS section with w vertices per cell (w = 3 triangles, w = 4 tetrahedra) *)
+  Definition read_cells_body (w : nat) (line : list tok) (r4 : file) : option (list (list nat)) :=
+    match line with
+    | [TW kw; TZ tn; TZ ttn] =>
+        if negb (String.eqb kw "POLYGONS" || String.eqb kw "CELLS") then None
+        else if negb (Z.eqb ttn (Z.of_nat (S w) * tn)) then None             (* npt != w+1 *)
+        else
+          let '(nums, _) := take_nums r4 (Z.to_nat ttn) in
+          if negb (Nat.eqb (List.length nums) (Z.to_nat ttn)) then None           (* t.shape = (tnum, w+1) raises *)
+          else match all_some (map tokZ nums) with
+               | None => None
+               | Some zs =>
+                 match chunkn (S w) (List.length zs) zs with
+                 | None => None
+                 | Some rows =>
+                   match rows with [] => None | _ =>
+                   if negb (Z.eqb (hd 0%Z (last rows [])) (Z.of_nat w)) then None      (* t[tnum-1][0] != w *)
+                   else Some (map (fun row => map Z.to_nat (tl row)) rows)
+                   end
+                 end
+               end
+    | _ => None
+    end.
+  Definition read_vtk_cells (zK : Z -> K) (w : nat) (s : file) : option (list (K * K * K) * list (list nat)) :=
+    match read_vtk_pre zK s with
+    | Some (v, line, r4) => match read_cells_body w line r4 with Some rows => Some (v, rows) | None => None end
+    | None => None
+    end.
 
+  (* TRIANGLE_STRIPS: a strip of n points p0 .. p(n-1) stands for the n-2 triangles (pj, pj+1, pj+2) with alternating winding *)
+  Fixpoint strip_trias (even : bool) (l : list nat) : list tri :=
+    match l with
+    | a :: ((b :: c :: _) as tl) => (if even then (a, b, c) else (b, a, c)) :: strip_trias (negb even) tl
+    | _ => []
+    end.
+  Fixpoint read_strips (cnt : nat) (s : file) : option (list tri) :=
+    match cnt with
+    | O => Some []
+    | S c =>
+        match readline s with
+        | Some (TZ n :: ids, r) =>
+            if negb (Nat.eqb (List.length ids) (Z.to_nat n)) || Z.ltb n 0 then None
+            else match all_some (map tokZ ids), read_strips c r with
+                 | Some zs, Some rest => Some (strip_trias true (map Z.to_nat zs) ++ rest)
+                 | _, _ => None
+                 end
+        | _ => None
+        end
+    end.
   Definition rows3 (rows : list (list nat)) : option (list tri) :=
     all_some (map (fun r => match r with [a; b; c] => Some (a, b, c) | _ => None end) rows).
   Definition rows4 (rows : list (list nat)) : option (list tet) :=
     all_some (map (fun r => match r with [a; b; c; d] => Some (a, b, c, d) | _ => None end) rows).
   Definition read_vtk_tria (zK : Z -> K) (s : file) : option (list (K * K * K) * list tri) :=
-    match read_vtk_cells zK 3 s with
-    | Some (v, rows) => match rows3 rows with Some t => Some (v, t) | None => None end
+    match read_vtk_pre zK s with
+    | Some (v, line, r4) =>
+        match line with
+        | TW kw :: TZ tn :: _ =>
+            if String.eqb kw "TRIANGLE_STRIPS" then
+              match read_strips (Z.to_nat tn) r4 with
+              | Some (t0 :: ts) => if Z.ltb tn 0 then None else Some (v, t0 :: ts)
+              | _ => None
+              end
+            else match read_cells_body 3 line r4 with
+                 | Some rows => match rows3 rows with Some t => Some (v, t) | None => None end
+                 | None => None
+                 end
+        | _ => None
+        end
     | None => None
     end.
   Definition read_vtk_tet (zK : Z -> K) (s : file) : option (list (K * K * K) * list tet) :=
